@@ -70,6 +70,29 @@ class Ctx:
         """the rule must have produced at least n obligations (confirmed by hand on the pinned tree)"""
         self.floors[rule] = n
 
+    def shared(self, fn, *args, **kw):
+        """run a rule function of ANOTHER property as part of this one: its obligations, floors and explanations are re-labelled
+        `<this property>.<rule name>` (a change that breaks this property through a clause another property also relies on must
+        be reported by this property's own check)"""
+        n0 = len(self.obls)
+        f0 = set(self.floors)
+        fn(self, *args, **kw)
+        for o in self.obls[n0:]:
+            pre, _, rest = o.rule.partition(".")
+            if pre != self.prop and len(pre) == 3 and pre[0] == "C":
+                new = f"{self.prop}.{rest}"
+                o.key = o.key.replace(o.rule + "::", new + "::", 1)
+                o.rule = new
+        for r in list(self.floors):
+            if r not in f0:
+                pre, _, rest = r.partition(".")
+                if pre != self.prop and len(pre) == 3 and pre[0] == "C":
+                    self.floors[f"{self.prop}.{rest}"] = self.floors.pop(r)
+        for x in self.not_analysed:
+            pre, _, rest = x.get("rule", "").partition(".")
+            if pre != self.prop and len(pre) == 3 and pre[:1] == "C":
+                x["rule"] = f"{self.prop}.{rest}"
+
     def trust(self, *what: str):
         for w in what:
             if w not in self.trusted:
